@@ -121,10 +121,10 @@ CHECKS = {
         note=NOTE_COMMON + "PARTIAL: convergence of MMA on convex problems and 'constraints end up satisfied' are asymptotic claims that are observed, not proved; subsolv_exit_kkt_partial assumes the Newton caps are not hit; m = 0 is outside the property."),
     "C17": dict(
         text="Lean theorems over any ordered field: the clipped OC update stays in [xmin, xmax] and moves at most `move`; by induction over ALL iterations of minimize_oc every design at every response and the final states are in bounds and chained by the move limit; "
-             "volume is non-increasing in the multiplier; the bisection keeps vol(l1) > maxvol >= vol(l2) and exits with l2 - l1 <= tolerance; write-back slices concatenate to the design. Float model vs the real loop at every network response; "
+             "volume is non-increasing and (sqrt contract) explicitly Lipschitz in the multiplier, so the returned design has volume within C*l1l2tol of the target when it is reachable; the bisection keeps vol(l1) > maxvol >= vol(l2) and exits with l2 - l1 <= tolerance; write-back slices concatenate to the design. Float model vs the real loop at every network response; "
              "oracle: bounds, move, volume tolerance bound, convergence to x* ~ sqrt(c).",
         ref="§5 C17", technique="Lean 4 proof (clip lemmas, induction over iterations and bisection passes) + Float-model correspondence + oracle",
-        note=NOTE_COMMON + "PARTIAL: 'volume equals maxvol to bisection tolerance' needs a modulus of continuity (oc_volume_tolerance_partial takes it as hypothesis); fixed-point convergence is observed only."),
+        note=NOTE_COMMON + "Volume tolerance is proved under the sqrt contract (SqrtOK, satisfied by Real.sqrt): explicit Lipschitz constant of the volume in the multiplier (oc_volume_lipschitz), |sum(xnew) - maxvol| <= A*l1l2tol/(2*l1*sqrt(l1)) on exit (oc_volume_tolerance) and an a-priori C*l1l2tol bound whenever the target is reachable (oc_volume_tolerance_reachable, oc_iteration_volume). PARTIAL: fixed-point convergence to the analytic optimum is observed only; termination of the while loop is not a theorem."),
     "C07": dict(
         text="Lean theorems for every size, every number of rhs columns, any commutative ring and any exact inner solver (contract A*solve B = B, A^T*solveT B = B, satisfiable for every non-singular matrix): "
              "LinSolve returns X with A X = B (and rejects real-sparse + complex rhs), Inverse, SystemOfEquations (A x = b, x[p] = xp, b[f] = bf for every partition), StaticCondensation = Schur complement and reproduces the main-dof response; "
@@ -141,10 +141,10 @@ CHECKS = {
     "C19": dict(
         text="Lean theorems on a model of finite_difference over the C02 program model (any scalar incl. complex pairs): every entry not written by the block is restored exactly, no sensitivity is left on any examined signal, "
              "each reported pair comes from one perturbation, the analytical value is the back-propagated sensitivity entry for the seed used, calls only for non-skipped entries with the configured step, pre/slice split sound; "
-             "numerical value = true derivative + h*c for quadratic expansions (exact for affine modules), hence wrong sensitivities give non-matching and right ones matching pairs. Exact correspondence (dyadic data, dx = 2^-k) of the test_fn tuples "
+             "numerical value = true derivative + h*c for quadratic expansions (exact for affine modules) and within M*h/2 of it for any C^2 response over the reals (|second derivative| <= M), hence wrong sensitivities (off by more than M*h/2) give non-matching and right ones matching pairs. Exact correspondence (dyadic data, dx = 2^-k) of the test_fn tuples "
              "and all signal states/sensitivities, incl. sparse-matrix inputs and outputs, slices, complex inputs; independent rational oracle for analytical and numerical values.",
         ref="§5 C19", technique="Lean 4 proof (frame/loop lemmas over the network model) + exact correspondence + rational-arithmetic oracle; two OPEN known findings",
-        note=NOTE_COMMON + "PARTIAL: the O(dx) claim for general smooth modules (Taylor remainder) is not formalised; 'exactly one call per non-skipped entry' is oracle-checked. OPEN FINDINGS: default inputs containing a slice of an internal signal; fromsig inside a nested network."),
+        note=NOTE_COMMON + "The O(dx) claim is proved over the reals for every twice-differentiable seeded response (fd_numerical_smooth: |fd - true| <= M*dx/2, Taylor with Lagrange remainder), with the acceptance/detection corollaries. PARTIAL: 'exactly one call per non-skipped entry' is oracle-checked; independence of blks_pre from the perturbed inputs is not proved. OPEN FINDINGS: default inputs containing a slice of an internal signal; fromsig inside a nested network."),
 }
 
 NOT_APPLICABLE = {
